@@ -96,13 +96,13 @@ Rest(p, s) == SubSeq(s, Len(p) + 1, Len(s))
 
 (* the regex_rewrite menu (pattern, substitution) with its hand-written meaning; the driver cross-checks the
    meaning against Go's regexp on every path of the universe ("rx" events) *)
-RxMenu == {"none", "R1", "R2", "R3", "R4"}
-RxPattern(r) == CASE r = "R1" -> "[x]" [] r = "R2" -> "^/a/" [] r = "R3" -> "zz" [] r = "R4" -> "^/a/(.*)$" [] OTHER -> ""
-RxSubst(r)   == CASE r = "R1" -> "yz" [] r = "R2" -> "/c/" [] r = "R3" -> "q" [] r = "R4" -> "/d/$1/e" [] OTHER -> ""
+RxMenu == {"none", "R1", "R2", "R3", "R4", "R5"}
+RxPattern(r) == CASE r = "R1" -> "[x]" [] r = "R2" -> "^/a/" [] r = "R3" -> "zz" [] r = "R4" -> "^/a/(.*)$" [] r = "R5" -> "x" [] OTHER -> ""
+RxSubst(r)   == CASE r = "R1" -> "yz" [] r = "R2" -> "/c/" [] r = "R3" -> "q" [] r = "R4" -> "/d/$1/e" [] r = "R5" -> "yz" [] OTHER -> ""
 RECURSIVE ReplX(_)
 ReplX(s) == IF s = <<>> THEN <<>> ELSE (IF Head(s) = "x" THEN <<"y", "z">> ELSE <<Head(s)>>) \o ReplX(Tail(s))
 RegexApply(r, s) ==
-  CASE r = "R1" -> ReplX(s)
+  CASE r \in {"R1", "R5"} -> ReplX(s)
     [] r = "R2" -> IF IsPrefix(PrefixA, s) THEN <<"/", "c", "/">> \o Rest(PrefixA, s) ELSE s
     [] r = "R4" -> IF IsPrefix(PrefixA, s) THEN <<"/", "d", "/">> \o Rest(PrefixA, s) \o <<"/", "e">> ELSE s
     [] OTHER -> s
